@@ -77,4 +77,13 @@ PROPS = {
         "assumptions": ["parts (judged by C01-C05) are the reference; arrangement uses the oracle layouts' own prefix sums",
                         "verdict covers only the executions sampled"],
     },
+    "C17": {
+        "units": [{"name": "c17", "src": "harness/c17.cpp", "flavor": "asan", "shards": {"quick": 8, "thorough": 16}}],
+        "rule": "cases = elements/tangents per relation (SE_K_3<1> vs SE3 op-by-op, SE_K_3<2> vs Galilei at tau=0, lifts/projections, C1 factorisation, "
+                "rot_x/y/z, quaternion / isometry / complex / Euler (12 conventions) conversions, SO2 angle representations incl. signed-zero "
+                "coefficient patterns and atan2 cuts +- 1 ulp), float and double; distinct = distinct input bit patterns (all count as non-trivial)",
+        "floors": {"min_evaluations": {"quick": 100000, "thorough": 1000000},
+                   "cells": [r"convd\.angle_cw\.range\|signed_zero_coeffs", r"convd\.euler\.roundtrip\|proper", r"SE_2_3d<Galilei\.Ad", r"liftd\.project_se2"]},
+        "assumptions": ["oracle layouts / embeddings written from the documentation", "verdict covers only the executions sampled"],
+    },
 }
